@@ -39,36 +39,84 @@ ECC = {'header': ['--max_block_size', '40', '-s', '200', '-r', '0.3'],
        'whole': ['--max_block_size', '40', '-s', '200', '-r1', '0.3', '-r2', '0.2', '-r3', '0.1']}
 
 
+ALIASES = [('hash', 'rfigc'), ('header', 'header_ecc', 'hecc'), ('whole', 'structural_adaptive_ecc', 'saecc', 'protect', 'repair'),
+           ('recover', 'repair_ecc', 'recc'), ('dup', 'replication_repair'), ('restest', 'resilience_tester'), ('speedtest', 'ecc_speedtest')]
+
+
 def scenario(name):
     """-> list of problems (empty = holds).  name: 'C03-header', 'C03-whole', 'C01-header', 'C01-whole', 'C05', 'C18', 'C15',
-    'C01-<tool>-efile', 'C01-<tool>-efile1' (correction restricted by an --errors_file), 'C16', 'C17', 'C19', 'C20' (the last five also go through command aliases: hecc, recc, rfigc, resilience_tester)."""
+    'C01-<tool>-efile', '-efile1', '-efilepath' (correction restricted by an --errors_file), 'C01-<tool>-dbname', 'C0x-<tool>-sibling',
+    any of these with '@<alias>' (the subcommand typed), 'C16', 'C17', 'C19', 'C20' (the last five also go through command aliases: hecc, recc, rfigc, resilience_tester)."""
     d = tempfile.mkdtemp(prefix='pffcli')
     bad = []
+    name, _, alias = name.partition('@')
+    group = next((g for g in ALIASES if alias in g), ())
+    pff = lambda argv, cwd, _p=globals()['pff']: _p([alias if argv[0] in group else argv[0]] + list(argv[1:]), cwd)   # noqa: E731
     try:
         write_tree(d + '/in', FILES)
-        if name.startswith(('C03', 'C01')):
-            tool = name.split('-')[1]
-            rc, out = pff([tool, '-i', 'in', '-d', 'ecc.db', '-g', '-f', '-l', 'gen.log'] + ECC[tool], d)
+        if name.startswith(('C03', 'C01', 'C09')):
+            # name = C0x-<tool>[-variant][@alias]; the alias is the subcommand typed (every alias must reach the same tool)
+            parts = name.split('-')
+            tool = parts[1]
+            variant = parts[2] if len(parts) > 2 else ''
+            cmd = tool
+            files = dict(FILES)
+            inp, db = 'in', 'ecc.db'
+            if variant == 'dbname':
+                # the ecc file is a SIBLING of the input folder named after it (-i T/archive -d T/archive.ecc) and the tree holds files
+                # that are called like the ecc file and its index: they are ordinary protected files
+                shutil.rmtree(d + '/in')
+                inp, db = 'T/archive', 'T/archive.ecc'
+                files.update({'old/archive.ecc': bytes((i * 5 + 1) % 253 for i in range(400)), 'old/archive.ecc.idx': b'index of an older run\n' * 12})
+                write_tree(d + '/' + inp, files)
+            if variant == 'sibling':
+                # two files of the same size whose names differ in one bit ('1' = 0x31, '3' = 0x33)
+                files.update({'frames/f1.raw': bytes((i * 3) % 256 for i in range(300)), 'frames/f3.raw': bytes((i * 11 + 7) % 256 for i in range(300))})
+                write_tree(d + '/' + inp, files)
+            rc, out = pff([cmd, '-i', inp, '-d', db, '-g', '-f', '-l', 'gen.log'] + ECC[tool], d)
             if rc != 0:
                 bad.append({'step': 'generate with -l', 'exit': rc, 'tail': out[-300:]})
-            if 'efile' in name:
+            if 'efile' in variant:
                 pff(['hash', '-i', 'in', '-d', 'db.csv', '-g', '-f', '--silent'], d)
-            os.mkdir(d + '/out')
+            outd = 'in_fixed' if variant == 'prefixout' else 'out'      # prefixout: the output path STARTS WITH the input path (as a string)
+            os.mkdir(d + '/' + outd)
+            if variant == 'prefill':
+                # the output folder is not empty: an earlier, worse attempt left files of the right size there
+                write_tree(d + '/out', {'a.bin': bytes(len(files['a.bin'])), 'sub/b.txt': b'?' * len(files['sub/b.txt'])})
             want_out = {}
             if name.startswith('C01'):
-                for rel in ('a.bin', 'sub/b.txt'):
-                    b = bytearray(FILES[rel])
-                    for i in range(0, min(len(b), 200), 29):     # one wrong byte per block of the protected region
+                victims = ('a.bin', 'sub/b.txt') + (('old/archive.ecc', 'old/archive.ecc.idx') if variant == 'dbname' else ())
+                for rel in victims:
+                    b = bytearray(files[rel])
+                    # one wrong byte every 29 bytes of the protected region (header tool: the first 200 bytes; whole tool: the whole
+                    # file, so that a subcommand reaching the header tool instead is seen)
+                    for i in range(0, min(len(b), 200) if tool == 'header' else len(b), 29):
                         b[i] ^= 0x41
-                    open(os.path.join(d, 'in', *rel.split('/')), 'wb').write(bytes(b))
-                    want_out[rel] = FILES[rel] if tool == 'whole' else FILES[rel][:200] + bytes(b)[200:]
+                    open(os.path.join(d, inp, *rel.split('/')), 'wb').write(bytes(b))
+                    want_out[rel] = files[rel] if tool == 'whole' else files[rel][:200] + bytes(b)[200:]
+            if variant in ('efilepath', 'sibling'):
+                # damage the PATH FIELD of one entry within the capacity of its intra-ecc (one symbol)
+                victim, repl = (b'sub/b.txt', b'sub/b.tyt') if variant == 'efilepath' else (b'frames/f1.raw', b'frames/f3.raw')
+                data = open(d + '/' + db, 'rb').read()
+                i = data.find(victim)
+                if i < 0 or data.find(victim, i + 1) >= 0:
+                    bad.append({'step': 'harness: locate the path field', 'occurrences': data.count(victim)})
+                else:
+                    open(d + '/' + db, 'wb').write(data[:i] + repl + data[i + len(victim):])
+            if variant == 'sibling' and name.startswith('C01'):
+                b = bytearray(files['frames/f1.raw'])
+                for i in range(0, 200 if tool == 'header' else len(b), 29):
+                    b[i] ^= 0x41
+                open(d + '/in/frames/f1.raw', 'wb').write(bytes(b))
+                want_out['frames/f1.raw'] = files['frames/f1.raw'] if tool == 'whole' else files['frames/f1.raw'][:200] + bytes(b)[200:]
             extra = []
-            if name.endswith(('-efile', '-efile1')):
+            if variant in ('efile', 'efile1', 'efilepath'):
                 # the documented two-step workflow: `pff hash -e` writes the list of failing files (in another directory than the
                 # current one), correction is restricted to it with -e.  -efile1: a hand-made list naming one of the two damaged files
-                # -> only that one is repaired (the other is skipped, not a failure).
+                # -> only that one is repaired (the other is skipped, not a failure).  -efilepath: the path field of a listed file's
+                # entry carries one wrong symbol (the intra-ecc restores it; the file is still found in the list and repaired)
                 os.mkdir(d + '/lists')
-                if name.endswith('-efile'):
+                if variant != 'efile1':
                     rch, outh = pff(['hash', '-i', 'in', '-d', 'db.csv', '-e', 'lists/err.csv', '--silent'], d)
                     if rch in (0, 'TIMEOUT'):
                         bad.append({'step': 'hash check of the damaged tree', 'exit': rch, 'expected': 'non-zero', 'tail': outh[-300:]})
@@ -76,10 +124,10 @@ def scenario(name):
                     open(d + '/lists/err.csv', 'w').write('a.bin|listed by hand\n')
                     want_out = {'a.bin': want_out['a.bin']}
                 extra = ['-e', 'lists/err.csv']
-            rc, out = pff([tool, '-i', 'in', '-d', 'ecc.db', '-c', '-o', 'out', '-l', 'corr.log'] + extra + ECC[tool], d)
+            rc, out = pff([cmd, '-i', inp, '-d', db, '-c', '-o', outd, '-l', 'corr.log'] + extra + ECC[tool], d)
             if rc != 0:
                 bad.append({'step': 'correct with -l' + (' and -e' if extra else ''), 'exit': rc, 'expected': 0, 'tail': out[-300:]})
-            got = read_tree(d + '/out')
+            got = read_tree(d + '/' + outd)
             if got != want_out:
                 bad.append({'step': 'output folder', 'got': sorted(got), 'expected': sorted(want_out),
                             'differing': [k for k in want_out if got.get(k) != want_out[k]]})
@@ -97,14 +145,19 @@ def scenario(name):
             rc, out = pff(['hash', '-i', 'in', '-d', 'db.csv', '-l', 'chk2.log', '-e', 'err2.csv'], d)
             if rc in (0, 'TIMEOUT'):
                 bad.append({'step': 'check after a bit flip with -l', 'exit': rc, 'expected': 'non-zero', 'tail': out[-300:]})
-        elif name == 'C18':
+        elif name.split('-')[0] == 'C18':
+            variant = name[4:]
+            # prefixdirs: replica and output folders whose names are string prefixes of one another; prefill: a used output folder
+            reps, outd = (['rep', 'rep2', 'rep22'], 'rep_out') if variant == 'prefixdirs' else (['r1', 'r2', 'r3'], 'out')
             rc, out = pff(['hash', '-i', 'in', '-d', 'db.csv', '-g', '-f', '--silent'], d)
-            for i in (1, 2, 3):
-                shutil.copytree(d + '/in', d + '/r%d' % i, copy_function=shutil.copy2)
+            for r in reps:
+                shutil.copytree(d + '/in', d + '/' + r, copy_function=shutil.copy2)
             b = bytearray(FILES['a.bin']); b[5] ^= 0xff
-            open(d + '/r1/a.bin', 'wb').write(bytes(b))
-            rc, out = pff(['dup', '-i', 'r1', 'r2', 'r3', '-o', 'out', '-d', 'db.csv', '-r', 'rep.csv', '-f', '-l', 'dup.log'], d)
-            got = read_tree(d + '/out') if os.path.isdir(d + '/out') else {}
+            open(d + '/' + reps[0] + '/a.bin', 'wb').write(bytes(b))
+            if variant == 'prefill':
+                write_tree(d + '/out', {'a.bin': bytes(b), 'sub/b.txt': b'?' * len(FILES['sub/b.txt'])})
+            rc, out = pff(['dup', '-i'] + reps + ['-o', outd, '-d', 'db.csv', '-r', 'rep.csv', '-f', '-l', 'dup.log'], d)
+            got = read_tree(d + '/' + outd) if os.path.isdir(d + '/' + outd) else {}
             if got != FILES:
                 bad.append({'step': 'dup output', 'differing': [k for k in FILES if got.get(k) != FILES[k]]})
             if rc != 0:
@@ -187,9 +240,11 @@ def scenario(name):
 
 
 def stream(ctx, names):
-    for nm in names:
+    import concurrent.futures
+    with concurrent.futures.ThreadPoolExecutor(max_workers=6) as ex:      # the scenarios are separate processes in separate folders
+        results = list(ex.map(scenario, names))
+    for nm, bad in zip(names, results):
         case = {'kind': 'cli-process', 'scenario': nm}
-        bad = scenario(nm)
         ctx.evaluations += 1
         ctx.count('cli_process_scenarios')
         ctx.nontriv(('cli-process', nm))
